@@ -9,12 +9,73 @@
    ref            : the independent textbook recurrences (KrylovRef.v)
    o.truth        : C01 oracle evaluated on the implementation's output by the extracted
                     specification Krylov.true_res
-   richk          : k-fold Richardson iteration (KrylovRef.rich_iter) *)
+   richk          : k-fold Richardson iteration (KrylovRef.rich_iter)
+   f.solve / f.seq: the SAME extracted models evaluated at a binary64 instance of the Scalar record
+                    (OCaml floats: IEEE add/sub/mul/div/sqrt, one rounding per operation, no fusion),
+                    compared bit for bit with the double build of the implementation (d.solve / d.seq):
+                    long runs (hundreds of iterations, many restarts) that exact rationals cannot reach.
+                    The float instance is hand-written here (not extracted) and part of the trusted base. *)
 open Io
 
-let zero = box (parse_q "0")
-let one = box (parse_q "1")
-let junkv = box (parse_q "17/3")
+(* ---- the two instances of the Scalar record the models are run at ---- *)
+module type MODE = sig
+  val prefix : string
+  val sc : Scalar.coq_Scalar
+  val t_q : tok -> Obj.t
+  val show_s : Obj.t -> string
+  val junk : string
+end
+
+module Exact : MODE = struct
+  let prefix = ""
+  let sc = Io.sc
+  let t_q = Io.t_q
+  let show_s = Io.show_s
+  let junk = "17/3"
+end
+
+(* binary64: tokens are rationals (exactly representable ones in every generated case; the conversion
+   checks it), printing is the exact rational value of the double, like vq::show(double) *)
+module Float64 : MODE = struct
+  let prefix = "f."
+  let fl (x : Obj.t) : float = Obj.obj x
+  let bx (x : float) : Obj.t = Obj.repr x
+  let of_q (q : Q.t) : float =
+    let f = Q.to_float q in
+    if Q.equal (Q.of_float f) q then f else raise (Io.Model_exc ("token-not-representable-in-binary64:" ^ Q.to_string q))
+  let sc : Scalar.coq_Scalar =
+    { Scalar.s0 = bx 0.0; s1 = bx 1.0;
+      sadd = (fun a b -> bx (fl a +. fl b)); smul = (fun a b -> bx (fl a *. fl b));
+      ssub = (fun a b -> bx (fl a -. fl b)); sopp = (fun a -> bx (-. (fl a)));
+      sdiv = (fun a b -> bx (fl a /. fl b)); sinv = (fun a -> bx (1.0 /. fl a));
+      sadj = (fun a -> a); sabs = (fun a -> bx (Float.abs (fl a))); ssqrt = (fun a -> bx (sqrt (fl a)));
+      seqb = (fun a b -> fl a = fl b); sltb = (fun a b -> fl a < fl b);
+      seps = bx epsilon_float;
+      sofQ = (fun q -> bx (of_q (Q.make q.QArith_base.coq_Qnum q.QArith_base.coq_Qden))) }
+  let t_q t = let w = next t in
+    bx (match w with "nan" -> nan | "inf" -> infinity | "-inf" -> neg_infinity | _ -> of_q (Q.of_string w))
+  let show_s x = let f = fl x in
+    if f <> f then "nan" else if f = infinity then "inf" else if f = neg_infinity then "-inf"
+    else Q.to_string (Q.of_float f)
+  let junk = "17/4"
+end
+
+module Make (M : MODE) = struct
+let sc = M.sc
+let t_q = M.t_q
+let show_s = M.show_s
+let t_vec t = t_list t t_q
+let t_crs t : Crs.crs =
+  let n = t_i t in let m = t_i t in
+  let rows = List.init n (fun _ -> t_list t (fun t -> let c = t_i t in let v = t_q t in (c, v))) in
+  { Crs.ncols = m; Crs.rows = rows }
+let show_vec (v : Obj.t list) = "[" ^ String.concat " " (List.map show_s v) ^ "]"
+let const (w : string) = t_q (tok_of_line w)
+let reg name f = Io.reg (M.prefix ^ name) f
+
+let zero = const "0"
+let one = const "1"
+let junkv = const M.junk
 
 type prm = { maxiter : int; tol : Obj.t; abstol : Obj.t; ns : bool; ca : bool; m : int; k : int; l : int;
              damping : Obj.t; s : int; omega : Obj.t; smoothing : bool; replacement : bool; delta : Obj.t;
@@ -159,3 +220,8 @@ let () =
       Printf.sprintf "FAIL trivial-exit-on-nonzero-rhs reported %s true %s" (show_s res) (show_s rel)
     else Printf.sprintf "FAIL reported %s true %s" (show_s res) (show_s rel))
 
+
+end
+
+module E = Make (Exact)
+module F = Make (Float64)
